@@ -6,9 +6,19 @@ from pyvc.speclib import implies, iff
 from ak import short_uuid
 
 PROP = 'C20'
-A = short_uuid._ALPHABET            # read from the real module at check time
-IDX = short_uuid._INDEX_ALPHABET
-N = short_uuid._SHORT_GUID_LEN
+def _observed_alphabet():
+    """the digits of the encoding, in value order.  Taken from the module when it names them (`_ALPHABET`); otherwise
+    observed through the public encoder (digit d is the first character of the encoding of the value d), so that a
+    refactoring of the module's private names cannot break the contract module itself"""
+    a = getattr(short_uuid, '_ALPHABET', None)
+    if a is not None and len(a) > 1:
+        return list(a)
+    return [short_uuid.uuid_to_short_str(uuid.UUID(int=d))[0] for d in range(57)]
+
+
+A = _observed_alphabet()
+IDX = {c: i for i, c in enumerate(A)}       # the spec's own index (never the module's table)
+N = getattr(short_uuid, '_SHORT_GUID_LEN', 22)
 BASE = len(A)
 
 
